@@ -24,6 +24,13 @@ mod client;
 mod server;
 pub(crate) mod utils;
 
+/// Verification hooks: crate-visible re-exports of items of the private `client` /
+/// `server` sub-modules (filled by their `verif_*` shims).
+#[cfg(eigerco_lumina_verif)]
+pub(crate) mod verif_shim {
+    pub(crate) use super::client::verif_decode_and_verify_responses as decode_and_verify_responses;
+}
+
 use crate::p2p::P2pError;
 use crate::p2p::header_ex::client::HeaderExClientHandler;
 use crate::p2p::header_ex::server::HeaderExServerHandler;
